@@ -101,9 +101,20 @@ def _code_fingerprint():
 
 
 def run_children(case, ctx: Ctx):
-    """-> [dump of child 0, dump of child 1, ...] (each: {"pkgs": [per package dump]})"""
+    """-> [dump of child 0, dump of child 1, ...] (each: {"pkgs": [per package dump]}).
+    All children of a batch must run the same code: when the tree under test changes meanwhile (a commit during the
+    run) the batch is run again; if it keeps changing the shard ends as a harness error, never as a verdict."""
+    for attempt in range(3):
+        before = _code_fingerprint()
+        outs = _run_children_once(case, ctx)
+        if _code_fingerprint() == before:
+            return outs
+        ctx.rec.count("batches_repeated_because_code_under_test_changed")
+    raise RuntimeError("harness: the code under test kept changing while the children of one batch were running")
+
+
+def _run_children_once(case, ctx: Ctx):
     root = ctx.mkdtemp()
-    before = _code_fingerprint()
     try:
         docs = []
         for spec in case["pkgs"]:
@@ -139,8 +150,6 @@ def run_children(case, ctx: Ctx):
                     if out[probe] != outs[0][probe]:
                         ctx.rec.count("children_whose_%s_differs_from_child0" % probe)
         ctx.rec.count("child_processes", len(outs))
-        if _code_fingerprint() != before:
-            raise RuntimeError("harness: the code under test changed while the children of one batch were running")
         return outs
     finally:
         shutil.rmtree(root, ignore_errors=True)
